@@ -14,6 +14,7 @@ pkgs_of() {
     red)  echo "./internal/graph ./internal/concurrency github.com/sourcegraph/conc github.com/sourcegraph/conc/pool github.com/sourcegraph/conc/panics" ;;
     citer) echo "./pkg/storage/storagewrappers ./internal/shared golang.org/x/sync/singleflight" ;;
     tsres) echo "golang.org/x/sync/singleflight" ;;
+    memw) echo "./pkg/storage/memory google.golang.org/protobuf/types/known/timestamppb" ;;
     *) return 1 ;;
   esac
 }
@@ -25,6 +26,7 @@ main_of() {
     red)  echo ./internal/verifh/cmd/red ;;
     tsres) echo ./internal/verifh/cmd/tsres ;;
     citer) echo ./internal/verifh/cmd/citer ;;
+    memw) echo ./internal/verifh/cmd/memw ;;
   esac
 }
 if [ "${1:-}" = "--is-variant" ]; then pkgs_of "$2" >/dev/null 2>&1; exit $?; fi
@@ -36,17 +38,51 @@ if [ ! -x .build/bin/vgen ] || [ tools/vgen/main.go -nt .build/bin/vgen ]; then
 fi
 gen=.build/gen-$v.$$
 rm -rf "$gen"; mkdir -p "$gen"
-flags=""; [ "$v" = iter -o "$v" = citer ] && flags="-time"
+flags=""; [ "$v" = iter -o "$v" = citer -o "$v" = memw ] && flags="-time"
+# memw instruments a package of google.golang.org/protobuf (timestamppb.Now -> harness clock): nearly every package
+# of the build depends on that module and the directory of a replaced module is part of the compiler's cache key,
+# so its copy lives at a content-addressed stable path (.build/modcopy/<module>-<hash of the rewritten files>)
+# instead of the per-invocation gen directory; otherwise every build would recompile the whole dependency cone.
+stable=""; [ "$v" = memw ] && stable="$VERIF_ROOT/.build/modcopy"
 (cd "$REPO" && "$VERIF_ROOT/.build/bin/vgen" $flags -dir "$REPO" -out "$VERIF_ROOT/$gen" ${VERIF_EXTRA_OVERLAY:+-overlay "$VERIF_EXTRA_OVERLAY"} $pkgs)
 # Files beneath GOMODCACHE cannot be overlaid: instrumented third-party packages are materialised as a
 # copy of their module (rewritten files copied over) and wired in with a replace directive in the
 # per-invocation modfile.
-python3 - "$gen" "$VERIF_MODFILE" <<'PY'
-import json, os, shutil, subprocess, sys, re
-gen, modfile = sys.argv[1], sys.argv[2]
+python3 - "$gen" "$VERIF_MODFILE" "$stable" <<'PY'
+import json, os, shutil, subprocess, sys, re, hashlib
+gen, modfile, stable = sys.argv[1], sys.argv[2], sys.argv[3]
 ov = json.load(open(os.path.join(gen, "overlay.json")))
 cache = subprocess.run(["go", "env", "GOMODCACHE"], capture_output=True, text=True).stdout.strip()
 mods = {}
+if stable:
+    # content-addressed stable copies: one directory per (module, rewritten files), created atomically, reused
+    per = {}
+    for src in sorted(ov["Replace"]):
+        if src.startswith(cache + "/"):
+            m = re.match(r"(.+?@v[^/]+)/(.*)", src[len(cache) + 1:])
+            per.setdefault(m.group(1), []).append((m.group(2), ov["Replace"][src], src))
+    for moddir, files in per.items():
+        h = hashlib.sha256()
+        for inner, gf, _ in files:
+            h.update(inner.encode()); h.update(b"\0"); h.update(open(gf, "rb").read()); h.update(b"\0")
+        dst = os.path.join(stable, moddir.replace("/", "_") + "-" + h.hexdigest()[:16])
+        if not os.path.isdir(dst):
+            os.makedirs(stable, exist_ok=True)
+            tmp = dst + ".tmp%d" % os.getpid()
+            shutil.copytree(os.path.join(cache, moddir), tmp)
+            for d, _, fs in os.walk(tmp):
+                os.chmod(d, 0o755)
+                for f in fs:
+                    os.chmod(os.path.join(d, f), 0o644)
+            for inner, gf, _ in files:
+                shutil.copyfile(gf, os.path.join(tmp, inner))
+            try:
+                os.rename(tmp, dst)
+            except OSError:
+                shutil.rmtree(tmp, ignore_errors=True)  # another build created it meanwhile
+        for _, _, src in files:
+            del ov["Replace"][src]
+        mods[moddir] = dst
 for src in list(ov["Replace"]):
     if src.startswith(cache + "/"):
         rel = src[len(cache) + 1:]
